@@ -235,3 +235,5 @@ def check(ctx):
                    s.where, sst)
             ctx.touch(s, init)
     ctx.require("C14.e", "validated fields with setter", ne, 8)
+    # ---------------- (f) the resize primitives behind every setter (shared with C13.a / C13.d)
+    ctx.import_clauses("C13", {"C13.a", "C13.d"}, "C14.f", minimum=4)
